@@ -147,7 +147,7 @@ def d_dynamic_length_field():
 
 def d_dtc():
     d = B.dtc_dop("dtcs", [B.dtc(0x1234, "P1234"), B.dtc(0x0001, "P0001")])
-    return B.response([B.coded_const("sid", 0x59, 0), B.value_param("code", d)]), [("code", ("uint", 16))], None
+    return B.response([B.coded_const("sid", 0x59, 0), B.value_param("code", d)]), [("code", ("dependent", 16))], None
 
 
 def d_multiplexer():
@@ -201,7 +201,7 @@ def d_struct_bytesize_then_minmax():
 
 def d_linear_limited():
     d = B.dop("lim", dct=B.std_type(8), compu_method=B.linear(0, 1, DataType.A_UINT32, DataType.A_UINT32, 0, 100))
-    return B.request([B.coded_const("sid", 0x2E, 0), B.value_param("pct", d, 1)]), [("pct", ("uint", 8))], None
+    return B.request([B.coded_const("sid", 0x2E, 0), B.value_param("pct", d, 1)]), [("pct", ("dependent", 8))], None
 
 
 def d_minmax_unicode_odd_offset():
